@@ -354,6 +354,43 @@ def site_rules(ctx, prop, direction):
             ctx.unproved(R, s.kind, 'unclassified store into the profile vector: %s' % s.kind, w)
 
 
+def searches(ctx, prop):
+    """the two index searches of insert_speed's overlap branch: idx_start runs upwards from 0 while the restriction starts
+    after the point, idx_end downwards from the last point while the point lies after the restriction's end; each has that
+    single way out and a unit step.  Given a sorted profile: idx_start = first point at or after offset_start, idx_end = last
+    point at or before offset_end — the positions every site obligation assumes."""
+    R = '%s-%s.search' % (prop, '6' if prop == 'C02' else '5')
+    b, an = analysis(ctx)
+    if b is None or an is None or an.exit_state is None:
+        ctx.unproved(R, 'insert_speed', 'InsertSpeed::insert_speed not found / not analysable'); return
+    S = sites(ctx, b, an)
+    st, en = SL('offset_start'), SL('offset_end')
+    ins = [s_ for s_ in S if s_.kind == 'insert']
+    if not ins:
+        ctx.unproved(R, 'insert_speed', 'no insert site in the overlap branch'); return
+    pc = ins[0].pc
+    w = ctx.where(b)
+    found = {}
+    for c, o in pc:
+        if c[0] == 'gt' and o == '0':
+            for name, a_, b_ in (('idx_start', c[1] == st, c[2]), ('idx_end', c[2] == en, c[1])):
+                if a_ and b_[0] == 'pre' and b_[1][0] == ('obj', 1) and b_[1][-1] == ('f', 'offset') and b_[1][1][0] == 'idx' and b_[1][1][1][0] == 'loopvar':
+                    found[name] = b_[1][1][1]
+    for name, ent_want, step in (('idx_start', ZERO, 'add'), ('idx_end', mk('sub', ('len', ('pre', SELF)), ONE), 'sub')):
+        Lv = found.get(name)
+        if Lv is None:
+            ctx.bad(R, name + '|exit', 'the %s search does not stop on the plain test against the restriction\'s %s (another way out, or a different test)' % (name, 'start' if name == 'idx_start' else 'end'), w); continue
+        others = [show(c, an.names)[:80] for c, o in pc if c[0] == 'pathset' and any(y == Lv for alt in c[2] for cc, _ in alt for y in walk(cc))]
+        ctx.check(not others, R, name + '|exit', 'the %s search has a single way out: %s' % (name, 'the point is not before offset_start' if name == 'idx_start' else 'the point is not after offset_end'),
+                  'other ways out: %s' % others, w)
+        H, key = Lv[1], Lv[2]
+        ent = an.load(key, an.loop_entry[H]) if H in an.loop_entry else None
+        backs = [an.load(key, s_) for s_ in an.loop_back.get(H, [])]
+        ctx.check(ent == ent_want and bool(backs) and all(x == mk(step, Lv, ONE) for x in backs), R, name + '|step',
+                  'the %s search starts at %s and moves by one point per iteration' % (name, 'the first point' if name == 'idx_start' else 'the last point'),
+                  'starts at %s, steps %s' % (show(ent, an.names)[:60] if ent else None, [show(x, an.names)[:60] for x in backs]), w)
+
+
 def empty_restriction_rule(ctx):
     """C13-4.empty: a restriction of zero length (offset_start == offset_end, admitted by validation) covers no position,
     so it must not change the profile: every mutation site is either unreachable for it or leaves the value in force
